@@ -318,8 +318,10 @@ Fixpoint advance (fuel : nat) (c : cfg) (s : sys) (T : N) : sys :=
   match fuel with
   | O => s
   | S fuel' =>
-      let cd := waiting (s_c s) && N.leb (e_timer (s_c s)) T in
-      let sd := waiting (s_s s) && N.leb (e_timer (s_s s)) T in
+      (* the timer of a flight that is not retransmitted (HelloVerifyRequest) only re-arms itself:
+         it has no observable effect and is skipped *)
+      let cd := waiting (s_c s) && fl_retransmit (e_flight (s_c s)) && N.leb (e_timer (s_c s)) T in
+      let sd := waiting (s_s s) && fl_retransmit (e_flight (s_s s)) && N.leb (e_timer (s_s s)) T in
       if cd && (negb sd || N.leb (e_timer (s_c s)) (e_timer (s_s s))) then
         let t := e_timer (s_c s) in
         let '(e', out) := on_timer c (s_c s) in
@@ -337,7 +339,7 @@ Inductive move := Deliver (from_client : bool) (k : nat) (T : N).
 
 Definition do_move (c : cfg) (s0 : sys) (m : move) : option sys :=
   let '(Deliver fc k T) := m in
-  let s := advance 64 c s0 T in
+  let s := advance 4096 c s0 T in
   if fc then
     match nth_error (s_cout s) k with
     | None => None
